@@ -432,8 +432,8 @@ def main():
                 hist["warmup_and_policy_runs"] += 1
             if nontrivial(c, im):
                 distinct.add(json.dumps({k: c[k] for k in c if k != "id"}, sort_keys=True))
-        if probs and len(chk.violations) < 3:
-            oracle_bad = [s for s, _ in probs if s.startswith("oracle-")]
+        if probs and len([v for v in chk.violations if v["signature"] != "vecnormalize-terminal-obs-clipped"]) < 3:
+            oracle_bad = [s for s, _ in probs if not s.startswith("model-correspondence-") and s != "impl-exception"]
             sig = oracle_bad[0] if oracle_bad else probs[0][0]
             chk.violation(sig, "; ".join(m for s, m in probs if s == sig)[:700],
                           {"case": c, "problems": probs[:10], "correspondence": "harness/c04.py vs Model.OffPolicyCollect.check_off"},
